@@ -340,6 +340,25 @@ class Sym:
             return 'Sym(%s)' % self.n
         return 'Sym(<%s>/%d atoms)' % (str(self.n)[:60], len(self.d))
 
+    def sqrt(self):
+        if Sym.SQRT_HOOK is None:
+            raise TypeError('sqrt of a symbolic value')
+        return Sym.SQRT_HOOK(self)
+
+    def rint(self):
+        return self           # rounding is not modelled (identity): ordering ties at the rounding resolution are outside the claims
+
+    def __round__(self, n=None):
+        return self
+
+    @property
+    def real(self):
+        return self
+
+    @property
+    def imag(self):
+        return Sym(Fraction(0))
+
     # numpy object-array ufunc hooks
     def conjugate(self): return self
     def isnan(self): return False
